@@ -213,6 +213,8 @@ def run_docenc(ctx):
     # round trip: docenc | docenc -d must reproduce valid documents (the property), judged on the tool alone
     docs_nl = [b"", b"a\n", b"a\nb\n", b"a\r\n", b"\r\n", b"a\r\nb\n", b"ab\na\r\n", b"\ra\n"]
     docs_nul = [b"a", b"a\n", b"a\r", b"\r", b"a\r\nb", b"\n\n", b"a\n\nb", b"abc\r"]
+    # the empty document (base64: the empty line) is a document like any other when DEcoding and for index selection
+    docs_dec = docs_nul + [b"", b""]
     seqs = []
     for n in range(1, 4):
         for t in itertools.product(range(len(docs_nl)), repeat=n):
@@ -243,7 +245,7 @@ def run_docenc(ctx):
     dops, druns = [], []
     for _ in range(150 if ctx.tier == "quick" else 1500):
         n = rng.randrange(0, 6)
-        ds = [rng.choice(docs_nl + docs_nul) for _ in range(n)]
+        ds = [rng.choice(docs_nl + docs_dec) for _ in range(n)]
         b64 = b"".join(base64.b64encode(d) + b"\n" for d in ds)
         nul = rng.randrange(2)
         # index arguments as a user may type them: any order, repeated, overlapping ranges (M-N expands to M..N)
